@@ -147,8 +147,8 @@ M = [
   "    def __setstate__(self, state):\n        self.__dict__.update(state)\n        self.__order = None\n",
   "unpickled points lose their declared order"),
  ("c19-precompute-negates", "C19", "src/ecdsa/keys.py",
-  "        self.pubkey.point = ellipticcurve.PointJacobi.from_affine(\n            self.pubkey.point, True\n        )\n",
-  "        self.pubkey.point = ellipticcurve.PointJacobi.from_affine(\n            -self.pubkey.point.to_affine(), True\n        )\n",
+  "            point.x(),\n            point.y(),\n            1,\n            point.order() or self.curve.order,\n",
+  "            point.x(),\n            -point.y() % point.curve().p(),\n            1,\n            point.order() or self.curve.order,\n",
   "VerifyingKey.precompute() replaces the key's point by its negative"),
  ("c20-lost-release", "C20", "src/ecdsa/_rwlock.py",
   "        self.__read_switch.acquire(self.__no_writers)\n        self.__no_readers.release()\n",
